@@ -366,6 +366,96 @@ func aliasResRun(w *World) {
 	w.Run()
 }
 
+// alias-race: two plain writers at once. A write that loses the race between its read and its commit must leave what the
+// winner stored - and everything that was handed out of it - alone.
+func init() {
+	register(&Scenario{Name: "alias-race", Prop: "C07", Faulty: true, Doc: "Value / Collection of the all-field-kinds test message written by two tasks at the same time (plain writes and masked writes, no callbacks), with a subscriber holding every event; every result, read and event re-compared with its copy after every later operation: whatever a write that lost a race does, nothing handed out before changes",
+		Run:  aliasRaceRun,
+		Real: []string{"pkg/resource Value/Collection"}, Stub: []string{"writer/reader tasks", "alias monitor"}})
+}
+
+func aliasRaceRun(w *World) {
+	t := w.Tape
+	coll := t.Flag(1, 2)
+	p := &prng{s: uint64(1 + t.Choose(1<<20))}
+	mon := &aliasMon{w: w, key: map[string]any{"resource": resName(coll)}}
+	var val *resource.Value
+	var col *resource.Collection
+	if coll {
+		col = resource.NewCollection(resource.WithInitialRecord("a", richMsg(p, 1)))
+	} else {
+		val = resource.NewValue(resource.WithInitialValue(richMsg(p, 1)))
+	}
+	ctx, cancel := context.WithCancel(context.Background())
+	defer cancel()
+	if t.Flag(1, 2) {
+		bp := t.Flag(1, 2)
+		w.Go("s", true, func(task *Task) {
+			if coll {
+				ch := col.Pull(ctx, resource.WithBackpressure(bp))
+				for {
+					task.Yield("recv")
+					e, ok := <-ch
+					if !ok {
+						return
+					}
+					mon.track("subscriber: event new value", e.NewValue)
+					mon.track("subscriber: event old value", e.OldValue)
+				}
+			}
+			ch := val.Pull(ctx, resource.WithBackpressure(bp))
+			for {
+				task.Yield("recv")
+				e, ok := <-ch
+				if !ok {
+					return
+				}
+				mon.track("subscriber: event value", e.Value)
+			}
+		})
+	}
+	n := int32(10)
+	for i := 0; i < 2; i++ {
+		name := fmt.Sprintf("w%d", i)
+		k := 1 + t.Choose(4)
+		w.Go(name, false, func(task *Task) {
+			for j := 0; j < k; j++ {
+				task.Yield("op")
+				n++
+				msg := richMsg(p, n)
+				var wo []resource.WriteOption
+				if t.Flag(1, 3) {
+					wo = append(wo, resource.WithUpdatePaths("default_int32", "default_nested_message.a"))
+				}
+				var res proto.Message
+				switch {
+				case t.Flag(1, 4):
+					if coll {
+						res, _ = col.Get("a")
+					} else {
+						res = val.Get()
+					}
+					mon.track(name+": read", res)
+				case coll:
+					res, _ = col.Update("a", msg, append(wo, resource.WithCreateIfAbsent())...)
+					mon.track(name+": result of Update", res)
+				default:
+					res, _ = val.Set(msg, wo...)
+					mon.track(name+": result of Set", res)
+				}
+				if !mon.check(name + "'s operation") {
+					return
+				}
+			}
+		})
+	}
+	w.Run()
+	mon.check("the end of the run")
+	w.MarkNontrivial()
+	cancel()
+	w.Run()
+}
+
 // ---- trait models -----------------------------------------------------------------------------------------------------------
 
 func aliasModelsRun(w *World) {
